@@ -69,6 +69,7 @@ func checkC07(c c07Case, o *Obs) error {
 		return err
 	}
 	o.Label("measure:" + c.Measure)
+	o.LabelIf(sharesName(c.Queries, c.Targets), "query-named-like-a-target")
 	o.LabelIf(len(c.Targets[0].Seq) >= 64, "width>=64")
 	o.LabelIf(len(c.Targets[0].Seq)%64 == 0, "width-multiple-of-64")
 	o.LabelIf(len(c.Targets[0].Seq) > 65535, "width>65535")
@@ -363,6 +364,7 @@ func genC07(t *rapid.T) c07Case {
 	if wide {
 		c.TLay.Width = rapid.SampledFrom([]int{0, 60, 64, 70, 80, 64}).Draw(t, "wideWrap")
 	}
+	shareNames(t, c.Queries, c.Targets)
 	return c
 }
 
